@@ -956,7 +956,7 @@ Fixpoint has_key_kind (f : Z -> bool) (v : pval) : bool :=
   end.
 
 (* the repair state of the tree this branch is aligned with *)
-Definition cur_fixes : fixes := head_fixes.
+Definition cur_fixes : fixes := all_fixes.
 
 Definition cres_matches (o : cop) (r : cres) (err ex : Z) (res : list Z) : option bool :=      (* Some coded_ex *)
   match r with
@@ -992,9 +992,14 @@ Definition known_class (S : schema) (root : list Z) (prev : list Z) (o : cop) (e
   match cres_matches o (coded_op cur_fixes S root prev o) err ex res with
   | Some x => Some (class_of S root o x)
   | None =>
-    match cres_matches o (coded_op no_fixes S root prev o) err ex res with
-    | Some _ => Some (regress_class_of S root o)
-    | None => None
+    (* regression recognisers: the tree before the C10 repairs (d02f250), then the pinned tree *)
+    match cres_matches o (coded_op head_fixes S root prev o) err ex res with
+    | Some x => Some (class_of S root o x)
+    | None =>
+      match cres_matches o (coded_op no_fixes S root prev o) err ex res with
+      | Some _ => Some (regress_class_of S root o)
+      | None => None
+      end
     end
   end.
 
@@ -1019,6 +1024,8 @@ Definition known_load (S : schema) (root : list Z) (m0 : pmsg) (b0 : list Z) (re
   let badkey := has_key_kind (fun k => (k =? 6) || (k =? 7) || (k =? 8)) v in
   let sint := has_key_kind (fun k => (k =? 17) || (k =? 18)) v in
   if load_matches (coded_load_marshal cur_fixes S root b0) err outb then
+    Some (if err =? 0 then (if sint then 1009 else 1010) else if badkey then 1008 else 1010)
+  else if load_matches (coded_load_marshal head_fixes S root b0) err outb then
     Some (if err =? 0 then (if sint then 1009 else 1010) else if badkey then 1008 else 1010)
   else if load_matches (coded_load_marshal no_fixes S root b0) err outb then
     Some (if (err =? 1) && empty then 1007 else 1010)
